@@ -29,7 +29,7 @@ func verifNewStorage(cacheDir string) *Default {
 		metrics:                filter.EmptyMetrics{},
 		cacheDir:               cacheDir,
 		ruleListStaleness:      time.Nanosecond,
-		ruleListRefreshTimeout: 2 * time.Second,
+		ruleListRefreshTimeout: 400 * time.Millisecond,
 		ruleListMaxSize:        1 << 20,
 	}
 }
@@ -39,7 +39,7 @@ func verifNewStorage(cacheDir string) *Default {
 // keeps serving its previous version, a refreshed list serves its new version, and
 // invalid entries never remove a valid one.
 //
-//verif:harness name=H13b-storage tier=quick,thorough bounds="index of two valid lists plus one entry from {none, duplicate key, invalid key, empty URL, non-HTTP URL, third valid list} sorting first, between or last in the index; two refresh rounds; every list download fails or succeeds independently in each round; the second round may be interrupted (context cancelled) during any one list" reach=done,kept-previous,replaced,invalid-entry,interrupted maxpaths=200000
+//verif:harness name=H13b-storage tier=quick,thorough bounds="index of two valid lists plus one entry from {none, duplicate key, invalid key, empty URL, non-HTTP URL, third valid list} sorting first, between or last in the index; two refresh rounds; every list download succeeds, fails with an error status or runs into the per-list timeout, independently in each round; the second round may be interrupted (context cancelled) during any one list" reach=done,kept-previous,replaced,invalid-entry,interrupted maxpaths=200000
 //verif:assume symbolic build: the index download/JSON decoding (loadIndex) and the per-list download (rulelist.Refreshable.Refresh) are stubs with the chosen outcome; native replay uses a loopback HTTP server; blocked-service and safe-search refresh are not configured
 func VerifC13Storage() {
 	env := verifNewEnv13()
@@ -73,10 +73,19 @@ func VerifC13Storage() {
 	var prev map[string]*rulelist.Refreshable
 	for round := 0; round < 2; round++ {
 		ok := map[string]bool{}
+		// a failing download fails with an error status or by running into the per-list
+		// timeout (the round's own context stays alive)
+		timesOut := map[string]bool{}
 		for _, id := range valid {
-			ok[id] = verifChoice(2) == 0
+			switch verifChoice(3) {
+			case 0:
+				ok[id] = true
+			case 2:
+				timesOut[id] = true
+			}
 		}
 		env.setOutcomes(ok)
+		env.setTimeouts(timesOut)
 		// the round may be interrupted (its context cancelled) while one list is refreshed
 		ctx, cancel := context.WithCancel(context.Background())
 		cancelAt := ""
